@@ -173,6 +173,8 @@ def compare(camp, name, a_text, b_text, extra, relation="C18"):
         sb = set(map(tuple, fb["diags"]))
         diff = sorted(sa ^ sb, key=str)
         code = diff[0][1] if diff else "status:%s/%s" % (fa["status"], fb["status"])
+        if callable(relation):
+            relation = relation(diff)
         camp.fail("%s|%s" % (relation, code) if "|" not in relation else "%s|%s|%s" % (relation.split("|")[0], code, relation.split("|", 1)[1]), "diagnostics differ: only-in-original %s only-in-transformed %s (status %s/%s)" % (
             sorted(sa - sb, key=str)[:4], sorted(sb - sa, key=str)[:4], fa["status"], fb["status"]),
             dict(extra, name=name, a=a_text, b=b_text))
